@@ -4,10 +4,12 @@ package checks
 
 import (
 	"fmt"
+	abci "github.com/cometbft/cometbft/abci/types"
 	"math/big"
 	"math/rand"
 	"strings"
 	"testing"
+	"time"
 
 	sdkmath "cosmossdk.io/math"
 	sdk "github.com/cosmos/cosmos-sdk/types"
@@ -125,6 +127,18 @@ func c16State(r *report.R, id string) {
 	}
 	e.nextBlock()
 	stateCls := "delegations+ubd+redelegation+rewards"
+	if rng.Intn(2) == 0 {
+		// a validator is slashed for an infraction older than the unbonding / redelegation entries:
+		// their balances drop below their initial balances
+		vi := 1 + rng.Intn(2)
+		if v, found := n.App.StakingKeeper.GetValidator(n.Ctx(), n.Vals[vi].ValAddr); found && !v.IsUnbonded() {
+			n.EndBlock()
+			n.Commit()
+			n.BeginBlock(vn.BlockOpts{Dt: 2 * time.Second, Evidence: []abci.Misbehavior{n.DoubleSignEvidence(vi, 2, n.Time.Add(-8*time.Second))}})
+			stateCls += "+slashed-entries"
+			r.Count("states_with_slashed_unbonding_entries", 1)
+		}
+	}
 
 	valArg := func() (string, string) {
 		switch rng.Intn(6) {
